@@ -888,6 +888,12 @@ impl FileScheduler {
             while (updated_index < updated_requests.len()) && (orig_index < request.len()) {
                 let updated_range = &updated_requests[updated_index];
                 let orig_range = &request[orig_index];
+                if orig_range.is_empty() {
+                    // An empty request overlaps nothing, it still gets its (empty) buffer
+                    final_bytes.push(Bytes::new());
+                    orig_index += 1;
+                    continue;
+                }
                 let byte_offset = updated_range.start as usize;
 
                 if is_overlapping(updated_range, orig_range) {
